@@ -6,6 +6,7 @@ package helper
 
 // Drain drains the given channel. It blocks the caller.
 func Drain[T any](c <-chan T) {
+	VerifStage("Drain", 0, []any{c}, nil)
 	for {
 		_, ok := <-c
 		if !ok {
